@@ -223,6 +223,21 @@ def run_case(rec, spec, variant, rng, oracles=("C01", "C02", "C05", "C06", "C12"
                 pos = _first_diff(xs2, x2)
                 V("C12", "dontcare-bytes-change-reencoding",
                   f"({mode}) re-encodings differ at {pos}; lengths {len(xs2)} vs {len(x2)}")
+            if kind in ("data3D", "force3D", "emg", "events") and "C12" in oracles:
+                # lookups by label on the block read from the scrambled bytes answer as on the clean one
+                items_s = list(bs) if kind != "events" else list(bs.events)
+                for it_s in items_s[:4]:
+                    lab = it_s.label
+                    rec.count("oracle:C12.label-lookup-independent-of-dontcare")
+                    try:
+                        hit, inn = bs[lab], (lab in bs)
+                    except Exception as e:
+                        V("C12", "dontcare-bytes-break-label-lookup", f"({mode}) [{lab[:30]!r}] raised {type(e).__name__}: {e}")
+                        break
+                    first = next(x for x in items_s if x.label == lab)
+                    if hit is not first or not inn:
+                        V("C12", "dontcare-bytes-break-label-lookup", f"({mode}) [{lab[:30]!r}] is not the first item with that label / not contained")
+                        break
             try:
                 eq = bool(bs == b2)
                 rec.count("c12:equality-evaluated")
@@ -349,6 +364,26 @@ def shard_sweep(desc, rec):
                         run_case(rec, spec, {"dtype": "f4" if (n + nit) % 2 else "f8"}, rng,
                                  tuple(desc["oracles"]), "sweep")
     rec.exhaustive[f"presence masks of 1..{maxn} frames for {','.join(kinds)}"] = True
+    # long recordings: runs of 2^16 and more frames that do not start at frame 0 (a minute of EMG at 1 kHz with its
+    # first samples missing), and an exact 2^16-frame run - where chunked writers / readers change their path
+    if desc.get("long", True) and not desc.get("kinds_only_small"):
+        K = 1 << 16
+        for kind in kinds:
+            w = {"data3D": 3, "emg": 1, "force3D": 9, "platData": 6}[kind]
+            shapes_ = [(K + 700, [(10, K + 690)])]
+            if kind in ("emg", "data3D"):
+                shapes_ += [(K + 9, [(3, K)]), (2 * K + 50, [(0, 5), (7, K + 1), (K + 20, K + 25)])]
+            for n, rs in shapes_:
+                mask = [False] * n
+                for a_, l_ in rs:
+                    mask[a_:a_ + l_] = [True] * l_
+                spec = gen.small_spec(kind, 1, 2, [True, True], seed=desc["seed"])
+                key = lib.ITEMS_KEY[kind]
+                spec["nFrames" if "nFrames" in spec else "nSamples"] = n
+                base = gen.rframes(rng, [True] * 97, w)
+                spec[key][0]["frames"] = [base[i % 97] if m else None for i, m in enumerate(mask)]
+                rec.count("workload:long-runs")
+                run_case(rec, spec, {"dtype": "f4"}, rng, tuple(desc["oracles"]), "long-runs")
 
 
 def shard_shapes(desc, rec):
